@@ -22,6 +22,8 @@ META = {
 
 
 def check(ctx):
+    from ..rules import kwswap
+    kwswap.repo_wide(ctx, ("emu_mps", "emu_base"), 180)
     K = "emu_mps.mps_backend_impl."
     for cls in ("MPSBackendImpl", "NoisyMPSBackendImpl", "DMRGBackendImpl"):
         perm.check_impl(ctx, K + cls, {"drive", "matrix", "state", "permfield"})
